@@ -14,8 +14,12 @@ import itertools
 import math
 from fractions import Fraction
 
+import traceback
+import warnings
+
 import numpy as np
-from scipy.integrate import quad
+import scipy.linalg
+from scipy.integrate import quad, dblquad
 
 from .. import zoo
 from ..common import w, wl, wll, rd, rdl, rdll, close, fr, Infra
@@ -40,8 +44,9 @@ NOT_PROVED = [
     "additivity / non-negativity of the concrete families' integrate() and of LevyCopulaModel.mass (hypotheses IsMass, "
     "IsBoxMass2/3 of the theorems) are C09 / C11 / C12's subject; here they are oracle-checked (sum = intensity, strip sums, quadrature)",
     "general dimension d > 3 (the code's generic _mass_nd path): theorems are written out for d = 1, 2, 3",
-    "the probability-median middle() of CTMCGridProbabilityStep (a brentq root search) is only checked to lie strictly "
-    "inside its gap (hypothesis Between); root-searched truncation bounds are C13's subject",
+    "the probability-median middle() of CTMCGridProbabilityStep (a brentq root search) is only checked on the implementation; "
+    "where the float mass of an outer gap underflows to 0 it returns the gap's left end, i.e. hypothesis Between fails for that "
+    "gap (degenerate first cell, still tiling): such chains are covered by the oracle only; root-searched truncation bounds are C13's subject",
     "float rounding of the summation of rates (compared at 1e-12*n relative)",
 ]
 ASSUMPTIONS = [
@@ -51,6 +56,8 @@ ASSUMPTIONS = [
     "relative + 1e-13*intensity absolute",
 ]
 TRUSTED = ["scipy.integrate.quad (oracle only)", "scipy.special functions inside the families' integrate() (C09)"]
+
+warnings.filterwarnings("ignore", category=scipy.linalg.LinAlgWarning)   # sqrtm of a zero variance matrix in the copula chain ctor
 
 ORACLE_SUM_REL = 1e-12
 NEG_TOL = -1e-15
@@ -111,9 +118,10 @@ def oracle_1d(ctx, d, cls, g, ax, o, q, q_untruncated, intensity, lo, hi, densit
         ctx.fail("oracle", "c01.cells.tile", d, {"what": "ends", "cellLo0": lo[0], "axis0": ax[0], "cellHi_last": hi[-1],
                                                "axis_last": ax[-1]}, cls=cls)
         return False
-    # each state inside its own cell, strictly on the sides where it has a neighbour
+    # each state inside its own cell (the property does not ask for strictness: the probability median of a gap whose
+    # float mass underflows to 0 is the gap's left end, CTMCGridProbabilityStep.middle)
     for k in range(n):
-        ok = lo[k] <= ax[k] <= hi[k] and (k == 0 or lo[k] < ax[k]) and (k == n - 1 or ax[k] < hi[k])
+        ok = lo[k] <= ax[k] <= hi[k]
         if not ok:
             ctx.fail("oracle", "c01.state_in_cell", d, {"k": k, "cellLo": lo[k], "x": ax[k], "cellHi": hi[k]}, cls=cls)
             return False
@@ -162,15 +170,22 @@ def chain1d_probe(ctx, d, cls, model, g, method_name, nquad, corr=True, syntheti
     o = int(g.origin_coordinate.value)
     n = len(ax)
     arithmetic = not isinstance(g, zoo.CTMCGridProbabilityStep)
-    mc = MarkovChainProcess(model, METHODS[method_name], g)
-    nu_t = mc.model.levy_triplet.nu          # what the chain uses: truncated to grid.truncations[0]
     nu0 = model.levy_triplet.nu              # the caller's measure
-    q = create_q_vector(nu_t, g)
-    q0 = create_q_vector(nu0, g)
-    intensity = mc.intensity_of_jumps
-    lo, hi = impl_cells_1d(g)
-    hl = float(g.middle(g.left_point(g.origin_coordinate), g.origin))
-    hr = float(g.middle(g.origin, g.right_point(g.origin_coordinate)))
+    try:
+        mc = MarkovChainProcess(model, METHODS[method_name], g)
+        nu_t = mc.model.levy_triplet.nu      # what the chain uses: truncated to grid.truncations[0]
+        q = create_q_vector(nu_t, g)
+        q0 = create_q_vector(nu0, g)
+        intensity = mc.intensity_of_jumps
+        lo, hi = impl_cells_1d(g)
+        hl = float(g.middle(g.left_point(g.origin_coordinate), g.origin))
+        hr = float(g.middle(g.origin, g.right_point(g.origin_coordinate)))
+    except Infra:
+        raise
+    except Exception as e:                   # a supported model on a well-formed grid: the chain must exist
+        ctx.count("c01.chain1d", d, nontrivial=False, branch="raises")
+        ctx.fail("oracle", "c01.chain.raises", d, {"exception": repr(e)[:500]}, cls=cls)
+        return
     ctx.count("c01.chain1d", d, nontrivial=n >= 5, branch=f"{cls.get('kind')}:{cls.get('family')}")
     ctx.branches[f"c01.chain1d:method:{method_name}"] += 1
     exact_mass = None
@@ -228,6 +243,10 @@ def chain1d_probe(ctx, d, cls, model, g, method_name, nquad, corr=True, syntheti
                 ctx.fail("corr", "c01.jumpprob.model", d, {"name": "Drivers/C01 jumpProb vs probability_to_jump_to_state", "k": k,
                                                          "impl": float(p), "model": str(m_p[k])}, cls=cls)
                 return
+    elif method_name == "BINARYSEARCHTREEADAPTED1D" and intensity > 0 and not (
+            math.isclose(ax[o - 1], -g.h, rel_tol=1e-12) and math.isclose(ax[o + 1], g.h, rel_tol=1e-12)):
+        # neighbours of 0 are not -h / +h (C13's known finding on the constructor): the adapted-1d sampler hard-codes -h/2
+        ctx.branches["c01.leftprob_skipped_neighbours_not_h"] += 1
     elif method_name == "BINARYSEARCHTREEADAPTED1D" and intensity > 0:
         left = sum(m_q[:o], Fraction(0)) / m_i          # = mass of the left block / intensity (theorem sum_rates…)
         if not close(mc.sampling._proba_left_axis, left, scale=Fraction(1)):
@@ -287,10 +306,15 @@ def run_1d(ctx, nmodels, kmax, nquad, corr=True):
                 k -= 1
             for _ in range(k):
                 g.refine()
+            if not axis_ok([float(x) for x in g.axes[0]], int(g.origin_coordinate.value)):
+                # probability-step grid whose outer gaps have float mass 0: middle() returns the left end and refine()
+                # duplicates it (C13's subject: refinement nests grids)
+                ctx.branches[f"c01.skipped_not_wellformed_after_refine:{kind}"] += 1
+                continue
             method = "INVERSION" if rng.random() < 0.7 else "BINARYSEARCHTREEADAPTED1D"
             d = dict(stream="1d", family=fam, params=params, grid=gd, k=k, method=method)
             cls = dict(stream="1d", kind=kind, family=fam, k=k)
-            chain1d_probe(ctx, d, cls, model, g, method, nquad, corr=corr)
+            guarded(ctx, d, cls, chain1d_probe, ctx, d, cls, model, g, method, nquad, corr=corr)
             if corr and k > 0 and kind != "probstep":
                 refine_cells_probe(ctx, d, cls, ax0, o0, k, g)
 
@@ -322,7 +346,14 @@ def synthetic_probe(ctx, d, corr=True):
     for _ in range(d["k"]):
         g.refine()
     cls = dict(stream="synthetic", kind="synthetic", family="table", k=d["k"])
-    chain1d_probe(ctx, d, cls, model, g, d["method"], 0, corr=corr, synthetic=tm)
+    method = d["method"]
+    half = Fraction(d["h"]) / 2 ** (d["k"] + 1)
+    if tm._exact(d["axis"][0], -half, 0) + tm._exact(half, d["axis"][-1], 0) == 0:
+        # no mass outside the origin's cell: a chain that never jumps; the inversion sampler's constructor divides by the
+        # intensity, the adapted-1d sampler guards it -- degenerate, outside the property, kept as a crash test of the rest
+        method = "BINARYSEARCHTREEADAPTED1D"
+        ctx.branches["c01.synthetic:zero_intensity"] += 1
+    guarded(ctx, d, cls, chain1d_probe, ctx, d, cls, model, g, method, 0, corr=corr, synthetic=tm)
 
 
 # ------------------------------------------------------------------------------------------------- copula chains
@@ -359,10 +390,67 @@ def build_copula(d):
     return cm, g
 
 
+def copula_cell_oracle(ctx, d, cls, margins, cells, masses, intensity, o, n, ncells):
+    """independent computation of the joint mass of single cells of a 2-d copula chain (none of it goes through
+    LevyCopulaModel.mass): independent components -> the margin's own integrate on axis cells, 0 elsewhere; complete
+    dependence -> overlap of the margins' tail-integral intervals; Clayton -> dblquad of the Lévy density
+    c(U1(x),U2(y)) nu1(x) nu2(y) on cells off the axes"""
+    rng = ctx.rng
+    nus = [m.levy_triplet.nu for m in margins]
+    tail = lambda i, x: nus[i].integrate(x, np.inf) if x > 0 else nus[i].integrate(-np.inf, x)
+    tol = lambda e: 1e-7 * abs(e) + 1e-11 * max(1.0, abs(intensity))
+    cop = d["copula"]
+    off = [(i, j) for i in range(n) for j in range(n) if i != o and j != o]
+    on = [(i, o) for i in range(n) if i != o] + [(o, j) for j in range(n) if j != o]
+    todo = []
+    if cop == "independent":
+        todo = [(cs, "axis") for cs in on] + [(cs, "zero") for cs in rng.sample(off, min(len(off), ncells))]
+    elif cop == "dependent":
+        todo = [(cs, "overlap") for cs in rng.sample(off, min(len(off), 4 * ncells))]
+    elif cop == "clayton":
+        big = sorted(off, key=lambda cs: -masses[cs])[:max(2, ncells // 2)]
+        todo = [(cs, "density") for cs in set(big + rng.sample(off, min(len(off), ncells)))]
+    for cs, how in todo:
+        (a1, a2), (b1, b2) = cells[cs]
+        if how == "axis":
+            k = 0 if cs[1] == o else 1
+            expected = nus[k].integrate(cells[cs][0][k], cells[cs][1][k])
+        elif how == "zero":
+            expected = 0.0
+        elif how == "overlap":
+            if (a1 > 0) != (a2 > 0):
+                expected = 0.0
+            elif a1 > 0:
+                expected = max(0.0, min(tail(0, a1), tail(1, a2)) - max(tail(0, b1), tail(1, b2)))
+            else:
+                expected = max(0.0, min(tail(0, b1), tail(1, b2)) - max(tail(0, a1), tail(1, a2)))
+        else:
+            theta, eta = d["copula_kw"]["theta"], d["copula_kw"]["eta"]
+            factor = eta if (a1 > 0) == (a2 > 0) else 1.0 - eta
+
+            def dens(y, x):
+                u, v = tail(0, x), tail(1, y)
+                if u <= 0 or v <= 0:
+                    return 0.0
+                c = (1 + theta) * (u * v) ** (-theta - 1) * (u ** -theta + v ** -theta) ** (-1 / theta - 2)
+                return factor * c * nus[0](x) * nus[1](y)
+            expected, _ = dblquad(dens, a1, b1, a2, b2, epsabs=1e-13 * max(1.0, intensity), epsrel=1e-9)
+        ctx.branches[f"c01.copula_cell_oracle:{how}"] += 1
+        if not abs(masses[cs] - expected) <= tol(expected):
+            ctx.fail("oracle", "c01.rate_is_cell_mass", d, {"state": list(cs), "cell": [list(cells[cs][0]), list(cells[cs][1])],
+                                                          "rate": masses[cs], "independent_value": expected, "how": how}, cls=cls)
+            return False
+    return True
+
+
 def copula_probe(ctx, d, corr=True):
+    cls = dict(stream="copula", kind=d["grid"]["kind"], copula=d["copula"], dim=d["dim"], k=d["k"])
+    guarded(ctx, d, cls, _copula_probe, ctx, d, cls, corr)
+
+
+def _copula_probe(ctx, d, cls, corr=True):
     rng = ctx.rng
     dim = d["dim"]
-    cls = dict(stream="copula", kind=d["grid"]["kind"], copula=d["copula"], dim=dim, k=d["k"])
     try:
         cm, g = build_copula(d)
     except Exception as e:
@@ -374,28 +462,35 @@ def copula_probe(ctx, d, corr=True):
         ctx.branches[f"c01.skipped_not_wellformed:copula:{d['grid']['kind']}"] += 1
         return
     n = len(axes[0])
-    # the chain, through the public constructor when that is cheap (finite variation: no nquad pool in the ctor)
-    if cm.jump_of_finite_variation():
-        mc = MarkovChainLevyCopula(cm, g, SamplingMethod.BINARYSEARCHTREEADAPTED)
-        model_t, intensity, bst = mc.model, mc.intensity_of_jumps, mc.sampling
-        ctx.branches["c01.copula:via_MarkovChainLevyCopula"] += 1
-    else:                               # same first lines as MarkovChainLevyCopula.__init__ (markovchainlevycopula.py:90-108)
-        model_t = copy.deepcopy(cm)
-        model_t.truncate_levy_measure(truncations=g.truncations)
-        intensity = compute_intensity_of_jumps(model=model_t, grid=g)
-        bst = BinarySearchTreeAdapted(model=model_t, grid=g)
-        ctx.branches["c01.copula:via_samplingfactory"] += 1
-    inv = create_sampling_inversion_method(g, model_t, intensity, True)
-    states = list(itertools.product(range(n), repeat=dim))
-    origin = tuple([o] * dim)
-    cells, masses = {}, {}
-    for cs in states:
-        pt = Coordinates(cs)
-        a = tuple(float(x) for x in g.middle(g.left_point(pt), g[pt]))
-        b = tuple(float(x) for x in g.middle(g[pt], g.right_point(pt)))
-        cells[cs] = (a, b)
-        if cs != origin:
-            masses[cs] = model_t.mass(a, b)
+    try:
+        # the chain, through the public constructor when that is cheap (finite variation: no nquad pool in the ctor)
+        if cm.jump_of_finite_variation():
+            mc = MarkovChainLevyCopula(cm, g, SamplingMethod.BINARYSEARCHTREEADAPTED)
+            model_t, intensity, bst = mc.model, mc.intensity_of_jumps, mc.sampling
+            ctx.branches["c01.copula:via_MarkovChainLevyCopula"] += 1
+        else:                               # same first lines as MarkovChainLevyCopula.__init__ (markovchainlevycopula.py:90-108)
+            model_t = copy.deepcopy(cm)
+            model_t.truncate_levy_measure(truncations=g.truncations)
+            intensity = compute_intensity_of_jumps(model=model_t, grid=g)
+            bst = BinarySearchTreeAdapted(model=model_t, grid=g)
+            ctx.branches["c01.copula:via_samplingfactory"] += 1
+        inv = create_sampling_inversion_method(g, model_t, intensity, True)
+        states = list(itertools.product(range(n), repeat=dim))
+        origin = tuple([o] * dim)
+        cells, masses = {}, {}
+        for cs in states:
+            pt = Coordinates(cs)
+            a = tuple(float(x) for x in g.middle(g.left_point(pt), g[pt]))
+            b = tuple(float(x) for x in g.middle(g[pt], g.right_point(pt)))
+            cells[cs] = (a, b)
+            if cs != origin:
+                masses[cs] = model_t.mass(a, b)
+    except Infra:
+        raise
+    except Exception as e:
+        ctx.count("c01.copula", d, nontrivial=False, branch="raises")
+        ctx.fail("oracle", "c01.chain.raises", d, {"exception": repr(e)[:500]}, cls=cls)
+        return
     ctx.count("c01.copula", d, nontrivial=n >= 5, branch=f"{d['copula']}:d{dim}:{d['grid']['kind']}")
     # ---- S
     for i in range(dim):
@@ -403,7 +498,7 @@ def copula_probe(ctx, d, corr=True):
         hi = [cells[tuple(c if j == i else o for j in range(dim))][1][i] for c in range(n)]
         ax = axes[i]
         for c in range(n):
-            if not (lo[c] <= ax[c] <= hi[c] and (c == 0 or lo[c] < ax[c]) and (c == n - 1 or ax[c] < hi[c])):
+            if not (lo[c] <= ax[c] <= hi[c]):
                 ctx.fail("oracle", "c01.state_in_cell", d, {"axis": i, "k": c, "cellLo": lo[c], "x": ax[c], "cellHi": hi[c]}, cls=cls)
                 return
         if any(hi[c] != lo[c + 1] for c in range(n - 1)) or lo[0] != ax[0] or hi[-1] != ax[-1]:
@@ -437,6 +532,8 @@ def copula_probe(ctx, d, corr=True):
             if not abs(strip - hull) <= 1e-10 * max(abs(intensity), 1e-300):
                 ctx.fail("oracle", "c01.strip_mass", d, {"column": i, "sum_of_cells": strip, "mass_of_strip": hull}, cls=cls)
                 return
+    if dim == 2 and not copula_cell_oracle(ctx, d, cls, cm.models, cells, masses, intensity, o, n, ctx.n(3, 12)):
+        return
     if not corr:
         return
     # ---- C
@@ -504,15 +601,30 @@ def copula_probe(ctx, d, corr=True):
                 return
 
 
+def guarded(ctx, d, cls, fn, *a, **k):
+    """run one probe; an exception raised from inside rpylib on a supported model / well-formed grid is a failure of the
+    property on that input (the chain, or one of its rates, does not exist); anything else is a harness problem"""
+    try:
+        return fn(*a, **k)
+    except Infra:
+        raise
+    except Exception as e:
+        frames = traceback.extract_tb(e.__traceback__)
+        if not any("/rpylib/" in f.filename for f in frames):
+            raise
+        where = [f"{f.filename.split('/rpylib/')[-1]}:{f.lineno}" for f in frames if "/rpylib/" in f.filename][-3:]
+        ctx.fail("oracle", "c01.chain.raises", d, {"exception": repr(e)[:500], "where": where}, cls=cls)
+
+
 # ------------------------------------------------------------------------------------------------------------ entry points
 def run(ctx, corr=True):
     rng = ctx.rng
-    run_1d(ctx, nmodels=ctx.n(22, 300), kmax=3, nquad=ctx.n(6, 10 ** 9), corr=corr)
-    for _ in range(ctx.n(60, 1200)):
+    run_1d(ctx, nmodels=ctx.n(50, 800), kmax=3, nquad=ctx.n(6, 10 ** 9), corr=corr)
+    for _ in range(ctx.n(150, 3000)):
         synthetic_probe(ctx, synthetic_case(rng), corr=corr)
-    for i in range(ctx.n(12, 110)):
+    for i in range(ctx.n(30, 300)):
         copula_probe(ctx, copula_case(rng, 2), corr=corr)
-    for i in range(ctx.n(2, 24)):
+    for i in range(ctx.n(5, 80)):
         copula_probe(ctx, copula_case(rng, 3), corr=corr)
 
 
@@ -540,7 +652,8 @@ def replay(ctx, rec):
         o0 = int(g.origin_coordinate.value)
         for _ in range(d["k"]):
             g.refine()
-        chain1d_probe(ctx, d, cls or dict(kind=d["grid"]["kind"], family=d["family"]), model, g, d["method"], 10 ** 9)
+        cls = cls or dict(kind=d["grid"]["kind"], family=d["family"])
+        guarded(ctx, d, cls, chain1d_probe, ctx, d, cls, model, g, d["method"], 10 ** 9)
         if d["k"] > 0 and d["grid"]["kind"] != "probstep":
             refine_cells_probe(ctx, d, cls, ax0, o0, d["k"], g)
     else:
